@@ -228,13 +228,55 @@ pub fn ops() -> &'static [Op] {
                 effect: || app([enc::tlv(enc::PP2_TYPE_CRC32C, &big()[..256]).unwrap(), enc::tlv(enc::PP2_TYPE_NOOP, &big()[..255]).unwrap()].concat()),
                 apply: |b| b.write_payloads([(Type::CRC32C, &big()[..256]), (Type::NoOp, &big()[..255])]),
             },
+            // 53..=54 batches handed over as iterators whose size_hint lower bound is 0
+            Op {
+                name: "write_payloads(vec![0xA1u8, 0xA2, 0xA3].into_iter().filter(|_| true))",
+                effect: || app(vec![0xa1, 0xa2, 0xa3]),
+                apply: |b| b.write_payloads(vec![0xa1u8, 0xa2, 0xa3].into_iter().filter(|_| true)),
+            },
+            Op {
+                name: "write_payloads(std::iter::from_fn(..) yielding 0x0102u16, 0x0304u16)",
+                effect: || app(vec![1, 2, 3, 4]),
+                apply: |b| {
+                    let mut n = 0u16;
+                    let items: Vec<u16> = std::iter::from_fn(|| {
+                        n += 1;
+                        if n <= 2 { Some(n * 0x0202 - 0x0100) } else { None }
+                    })
+                    .collect();
+                    let mut it = items.into_iter();
+                    b.write_payloads(std::iter::from_fn(move || it.next()))
+                },
+            },
+            // 55 one batch with two TLVs of the same type and length but different bytes
+            Op {
+                name: "write_payloads([(Type::UniqueId, b\"request-00000017....\"), (Type::UniqueId, b\"request-00000018....\")])",
+                effect: || app([enc::tlv(enc::PP2_TYPE_UNIQUE_ID, b"request-00000017....").unwrap(), enc::tlv(enc::PP2_TYPE_UNIQUE_ID, b"request-00000018....").unwrap()].concat()),
+                apply: |b| b.write_payloads([(Type::UniqueId, &b"request-00000017...."[..]), (Type::UniqueId, &b"request-00000018...."[..])]),
+            },
+            // 56..=57 values with a meaning of their own: an all-zero checksum, a value that looks like an encoded TLV of its own type
+            Op {
+                name: "write_tlv(Type::CRC32C, &[0, 0, 0, 0])",
+                effect: || app(enc::tlv(enc::PP2_TYPE_CRC32C, &[0, 0, 0, 0]).unwrap()),
+                apply: |b| b.write_tlv(Type::CRC32C, &[0, 0, 0, 0]),
+            },
+            Op {
+                name: "write_payloads([(Type::SSL, &[1,0,0,0,0][..]), (Type::SSLVersion, b\"TLSv1.3\")])",
+                effect: || app([enc::tlv(enc::PP2_TYPE_SSL, &[1, 0, 0, 0, 0]).unwrap(), enc::tlv(enc::PP2_SUBTYPE_SSL_VERSION, b"TLSv1.3").unwrap()].concat()),
+                apply: |b| b.write_payloads([(Type::SSL, &[1u8, 0, 0, 0, 0][..]), (Type::SSLVersion, &b"TLSv1.3"[..])]),
+            },
+            Op {
+                name: "write_payload((5u8, &[5, 0, 2, 0xAB, 0xCD][..]))",
+                effect: || app(enc::tlv(5, &[5, 0, 2, 0xab, 0xcd]).unwrap()),
+                apply: |b| b.write_payload((5u8, &[5u8, 0, 2, 0xab, 0xcd][..])),
+            },
         ]
     })
 }
 
-/// the main alphabet: ops 0..=40 and 47..=52
+/// the main alphabet: ops 0..=40 and 47..=58
 pub fn main_ops() -> Vec<u8> {
-    (0..41u8).chain(47..53u8).collect()
+    (0..41u8).chain(47..59u8).collect()
 }
 /// slices of 65535 / 65519 / 16 / 1 bytes, set_length(7), set_length(None), u8, big TLVs
 pub const BOUNDARY_OPS: [u8; 9] = [41, 42, 43, 44, 4, 6, 7, 45, 46];
@@ -534,16 +576,22 @@ pub fn run_searches(run: &Run, which: Which) {
     let all_ctors: Vec<u8> = (0..ctors().len() as u8).collect();
     let (d_main, d_boundary, d_core) = match run.tier {
         Tier::Quick => (3, 4, 6),
-        Tier::Thorough => (4, 5, 7),
+        Tier::Thorough => (4, 6, 9),
     };
     let specs = vec![
         SearchSpec { name: "UB-main", ctors: all_ctors.clone(), ops: main_ops(), depth: d_main },
         SearchSpec { name: "UB-boundary", ctors: vec![0, 4, 6], ops: BOUNDARY_OPS.to_vec(), depth: d_boundary },
         SearchSpec { name: "UB-core", ctors: vec![0, 4], ops: CORE_OPS.to_vec(), depth: d_core },
     ];
+    let mut cross: Vec<Value> = Vec::new();
     for spec in &specs {
         let t0 = Instant::now();
         let (stats, acc) = search(run, spec, which);
+        if stats.completed {
+            if let Some(v) = cross_check(which, spec, stats.layers.iter().sum::<u64>(), acc.viol_total) {
+                cross.push(v);
+            }
+        }
         run.absorb(acc);
         run.report(UniverseReport {
             name: spec.name.to_string(),
@@ -562,4 +610,50 @@ pub fn run_searches(run: &Run, which: Which) {
             completed: stats.completed,
         });
     }
+    run.extra("cross_check_with_stateright", if cross.is_empty() { json!("not run (PPP_XCHECK_BIN not set)") } else { json!(cross) });
+}
+
+/// Hand the same transition function to stateright's BFS checker (the `xcheck` crate) and compare its
+/// unique-state count and verdict with ours.  A disagreement between the two explorers is a machinery
+/// error, never a verdict.
+fn cross_check(which: Which, spec: &SearchSpec, our_unique: u64, our_violations: u64) -> Option<Value> {
+    let bin = std::env::var("PPP_XCHECK_BIN").ok().filter(|b| !b.is_empty())?;
+    let name = match spec.name {
+        "UB-core" => "core",
+        "UB-boundary" => "boundary",
+        _ => "main",
+    };
+    if (name == "main" && spec.depth > 4) || (name == "core" && spec.depth > 8) {
+        return None; // the single-threaded second explorer is only run where it takes seconds
+    }
+    let out = std::process::Command::new(&bin)
+        .arg(if which == Which::C09 { "C09" } else { "C10" })
+        .arg(name)
+        .arg(spec.depth.to_string())
+        .output();
+    let out = match out {
+        Ok(o) if o.status.success() => o,
+        other => {
+            println!("MACHINERY-ERROR: cross-check explorer {} did not run: {:?}", bin, other.map(|o| o.status));
+            std::process::exit(2);
+        }
+    };
+    let text = String::from_utf8_lossy(&out.stdout);
+    let v: Value = match text.lines().last().and_then(|l| serde_json::from_str(l).ok()) {
+        Some(v) => v,
+        None => {
+            println!("MACHINERY-ERROR: cross-check explorer printed no JSON: {}", text);
+            std::process::exit(2);
+        }
+    };
+    let their_unique = v["unique_states"].as_u64().unwrap_or(0);
+    let their_discoveries = v["discoveries"].as_array().map(|a| a.len()).unwrap_or(0);
+    if their_unique != our_unique || (their_discoveries > 0) != (our_violations > 0) {
+        println!(
+            "MACHINERY-ERROR: explorers disagree on {} depth {}: harness BFS {} unique states / {} violations, stateright {} unique states / {} discoveries",
+            spec.name, spec.depth, our_unique, our_violations, their_unique, their_discoveries
+        );
+        std::process::exit(2);
+    }
+    Some(json!({"spec": spec.name, "depth": spec.depth, "harness_unique_states": our_unique, "stateright": v, "agree": true}))
 }
